@@ -73,8 +73,7 @@ namespace Givaro {
     inline typename Poly1Dom<Domain,Dense>::Rep& Poly1Dom<Domain,Dense>::add
     (Rep& R, const Rep& P, const Type_t& Val) const
     {
-        size_t sP = P.size();
-        if (sP == 0)  {
+        if (isZero(P))  {
             R.resize(1);
             _domain.assign(R[0],Val);
         }
@@ -89,8 +88,7 @@ namespace Givaro {
     inline typename Poly1Dom<Domain,Dense>::Rep& Poly1Dom<Domain,Dense>::add
     (Rep& R, const Type_t& Val, const Rep& P) const
     {
-        size_t sP = P.size();
-        if (sP == 0)  {
+        if (isZero(P))  {
             R.resize(1);
             _domain.assign(R[0],Val);
         }
@@ -201,8 +199,7 @@ namespace Givaro {
     inline typename Poly1Dom<Domain,Dense>::Rep& Poly1Dom<Domain,Dense>::sub
     (Rep& R, const Rep& P, const Type_t& Val) const
     {
-        size_t sP = P.size();
-        if (sP == 0)  {
+        if (isZero(P))  {
             R.resize(1);
             _domain.neg(R[0],Val);
         }
